@@ -234,7 +234,7 @@ func runC15(t *c15Task) *c15Result {
 		}
 	case "route":
 		// one entry per block, index keys are separators: every stored key must be found
-		sub := c15RouteUniverse(ucmp, icmp)
+		sub := c15RouteUniverse(ucmp, icmp, t.Adj)
 		n := len(sub)
 		idx := 0
 		var rec func(start int, chosen []int)
@@ -285,8 +285,12 @@ func runC15(t *c15Task) *c15Result {
 }
 
 // c15RouteUniverse: 24 internal keys sorted under icmp (6 user keys x 2 seqs x 2 kinds).
-func c15RouteUniverse(ucmp comparer.Comparer, icmp comparer.Comparer) [][]byte {
+func c15RouteUniverse(ucmp comparer.Comparer, icmp comparer.Comparer, adj bool) [][]byte {
 	us := [][]byte{{}, {'a'}, {'a', 0x00}, {'a', 'a'}, {'a', 0xff}, {0xff, 0xff}}
+	if adj {
+		// neighbouring first bytes, a 0xff tail before a neighbour, and the 0xfe/0xff ceiling
+		us = [][]byte{{'a'}, {'a', 0xff}, {'b'}, {'b', 0x00}, {0xfe}, {0xff}}
+	}
 	var ks [][]byte
 	for _, u := range us {
 		for _, s := range []uint64{1, 2} {
@@ -344,6 +348,7 @@ func init() {
 				}
 				for from := 0; from < 12951; from += 1000 {
 					tasks = append(tasks, c15Task{Cmp: k, Kind: "route", From: from, To: from + 1000})
+					tasks = append(tasks, c15Task{Cmp: k, Kind: "route", From: from, To: from + 1000, Adj: true})
 				}
 			}
 			done := 0
@@ -386,7 +391,7 @@ func init() {
 			c.Coverage["comparers"] = harness.ComparerNames
 			c.SetExhaustive(exh && done == len(tasks))
 			c.Sample(map[string]any{"user_keys": []string{"", "\\x00", "a", "\\xff", "\\x00a", "a\\xff\\xff"}, "seqs": c15Seqs, "kinds": []string{"del", "val"}})
-			c.Coverage["rule"] = "states = internal keys x comparers (all strings over {0x00,'a',0xff} of length <=4 x seq {0,1,2,2^56-1} x {del,val} = 968 keys, 5 comparers; plus, for the pair and separator laws, a second universe of all strings over {0x00,0x01,'a','b',0xfe,0xff} of length <=3 (2072 keys) - neighbouring bytes and the 0xff ceiling, where shortening flips between possible and impossible); transitions = individual law evaluations: antisymmetry / identity / user-key-major newest-first / probe placement on all ordered pairs, transitivity on all triples of the length<=3 universe (thorough: length<=4), a<=Separator(a,b)<b and Successor(b)>=b on all ordered pairs for the internal and the user comparers, and Find of every stored key in every table of <=4 one-entry blocks over a 24-key sub-universe (index keys are the shortened separators)"
+			c.Coverage["rule"] = "states = internal keys x comparers (all strings over {0x00,'a',0xff} of length <=4 x seq {0,1,2,2^56-1} x {del,val} = 968 keys, 5 comparers; plus, for the pair and separator laws, a second universe of all strings over {0x00,0x01,'a','b',0xfe,0xff} of length <=3 (2072 keys) - neighbouring bytes and the 0xff ceiling, where shortening flips between possible and impossible); transitions = individual law evaluations: antisymmetry / identity / user-key-major newest-first / probe placement on all ordered pairs, transitivity on all triples of the length<=3 universe (thorough: length<=4), a<=Separator(a,b)<b and Successor(b)>=b on all ordered pairs for the internal and the user comparers, and Find of every stored key in every table of <=4 one-entry blocks over two 24-key sub-universes, one with neighbouring bytes (index keys are the shortened separators)"
 			c.Assume = []string{"the five comparers satisfy the documented Comparer contract (their Separator/Successor laws are checked too)"}
 		},
 	})
